@@ -4,26 +4,26 @@ import importlib, json, os, sys
 ROOT = os.path.dirname(os.path.dirname(os.path.abspath(__file__)))
 sys.path.insert(0, ROOT)
 TECH = {
- "C01": "E1 type-form dispatch tables + generator/laziness dataflow + inferred return kinds (ast + mypy facts)",
- "C02": "abstract interpretation (affine relational domain, Fourier-Motzkin) of generate vs validate + dispatch/def-use rules",
- "C03": "dispatch-table extraction + affine comparison of depth filters and validators",
- "C04": "necessary-condition rules: exact depth filters / full frontier (affine), single randomness funnel (who-may-call)",
- "C05": "type-form walker closure + AND/OR polarity of distance equations + base-type table agreement",
- "C06": "slice algebra / per-key def-use on crossover, single-store mutation, attribute-consistency and must-not-reach rules",
- "C07": "interprocedural random-source provenance over the resolved call graph (CHA)",
- "C08": "set-iteration-order consumer classification (mypy types) + ambient-nondeterminism who-may-call",
- "C09": "interprocedural parameter-mutation effect analysis with a freshness lattice",
- "C10": "mutation-through-Grammar-alias effect analysis + who-may-construct",
- "C11": "call-graph must-pass-through (labelling) + contradiction rules (dead branch, TYPE_CHECKING-only name)",
- "C12": "path enumeration of the tracker state machine + polarity evaluation + who-may-call on Evaluator",
- "C13": "per-path pairing (evaluate/count/store), cache-guard dominance, stored-callable invocation counting",
- "C14": "loop-shape and budget-predicate rules on search()/SearchBudget implementations",
- "C15": "iterator typestate (powerset abstract interpretation) + symbolic yield counts (affine domain, Fourier-Motzkin) + telescoping-slice rule",
- "C16": "polarity composition (key x reverse x slice) + dominance + yield count/typestate on elitism",
- "C17": "provenance + polarity under both flag values + loop-carried definition / freshness rules on selection steps",
- "C18": "abstract interpretation (affine relational domain, Fourier-Motzkin, exactness bit) of every bounded draw",
- "C19": "def-use of per-rule normalisation + who-may-write weights + weighted-choice bound (affine)",
- "C20": "closure-capture scope analysis + write->flush pairing + gating truth table + single-writer who-may-write",
+ "C01": "finite-model abstract interpretation of create_node / the stack mapper per type form + exhaustive interpretation of creation over all decision scripts on model grammars; laziness dataflow; inferred return kinds (ast + mypy facts); affine interpretation of choosers",
+ "C02": "abstract interpretation (affine relational domain, Fourier-Motzkin) of generate vs validate; finite-model interpretation of create_node / mutate / Dependent / the stack mapper",
+ "C03": "depth bookkeeping per type form (interpreted creator vs interpreted distance table); affine path-sensitive interpretation of depth filters and validators; interpreted decider constructors; exhaustive interpretation of creation over all decision scripts on model grammars",
+ "C04": "exhaustive interpretation of depth-limited creation over all decision scripts on model grammars (set equality with the enumerated bounded language) + necessary-condition rules (exact filters, full frontier, single randomness funnel, recursion through wrappers)",
+ "C05": "end-to-end interpretation of the grammar analysis (registration, fixpoint, reachable sub-grammar) on model grammars against a specification reference; type-form walker coverage; AND/OR polarity; base-type table agreement",
+ "C06": "finite-model interpretation of crossover / mutation operators on symbolic genes (all cuts, masks, drawn positions); attribute-consistency and must-not-reach rules",
+ "C07": "interprocedural random-source and store provenance over the resolved call graph (CHA, constructor chains) + interpreted model of the permitted genotype extension",
+ "C08": "set-iteration-order consumer classification (mypy types) + fixpoint-completeness rule + ambient-nondeterminism who-may-call + process-state rule",
+ "C09": "interprocedural parameter-mutation effect analysis with a freshness-depth lattice + interpreted relabel model",
+ "C10": "mutation-through-Grammar-alias effect analysis + who-may-construct / who-may-write",
+ "C11": "call-graph must-pass-through (labelling) + contradiction rules + interpreted fold (symbolic children and whole model programs) + interpreted abstract-expansion table on model grammars",
+ "C12": "finite-model interpretation of the tracker state machine on symbolic batches + polarity evaluation + who-may-call on Evaluator",
+ "C13": "finite-model interpretation of every evaluator / problem class on symbolic batches (pairing of evaluate / count / store) + who-may-call",
+ "C14": "loop-shape rules + finite-model interpretation of search() with a scripted budget, of budget predicates against a scripted tracker and of the tracked population wrapper",
+ "C15": "iterator typestate (powerset abstract interpretation) + symbolic yield counts (affine domain, Fourier-Motzkin) + list-shape abstract interpretation of slice boundaries",
+ "C16": "finite-model interpretation of elitism and of the hosting combinators + yield count / typestate",
+ "C17": "finite-model interpretation of tournament / lexicase selection with scripted draws against a reference filter",
+ "C18": "abstract interpretation (affine relational domain, Fourier-Motzkin, exactness bit) of every bounded draw + exhaustive small models of the derived primitives + concrete point witnesses",
+ "C19": "finite-model interpretation (exact rationals) of the weight normalisation and of its trigger + who-may-write weights + weighted-choice models",
+ "C20": "closure-capture scope analysis + finite-model interpretation of the recorder and of tracker registration + single-writer who-may-write",
 }
 NOT_BUILT = "no sound check built yet in this round; the structural clauses planned are in DESIGN.md section 3"
 checks, na = [], []
